@@ -13,9 +13,7 @@ if [ -n "$SEEDED_SCRATCH" ]; then
   mkdir -p $S/repo
   (cd /repo && git archive HEAD) | tar -x -C $S/repo
   (cd $S/repo && git init -q . && git apply "$patch") || { rm -rf $S; exit 2; }
-  # share the dependency build: copy the release deps once
-  mkdir -p /dev/shm/blsim-seeded-build
-  BLSIM_REPO=$S/repo BLSIM_BUILD_DIR=/dev/shm/blsim-seeded-build ./check $prop "$@"
+  BLSIM_REPO=$S/repo BLSIM_BUILD_DIR=$S/build ./check $prop "$@"
   rc=$?
   rm -rf $S
   echo "seeded $sid vs $prop: rc=$rc (scratch copy)"
